@@ -39,8 +39,9 @@ def run(chk, ix, tier):
     rules_outline.check_table_columns(chk, ix)
     rules_outline.check_tag_names(chk, ix)
     rules_outline.check_configured_schema_reaches_builder(chk, ix)
+    rules_outline.check_scenario_names_concrete(chk, ix)
     rules_outline.check_row_tags_concrete(chk, ix, "B9")
     rules_parser.check_tags_consumed(chk, ix, "P6")
     rules_select.check_builder_effects(chk, ix, ("B3", "G3", "G2", "B2"))
-    for r, n in (("B1", 1), ("B2", 3), ("B3", 2), ("B4", 5), ("B5", 12), ("B6", 30), ("B7", 5), ("B8", 20), ("B9", 3), ("B10", 2), ("P6", 5)):
+    for r, n in (("B1", 1), ("B2", 3), ("B3", 2), ("B4", 5), ("B5", 12), ("B6", 30), ("B7", 5), ("B8", 20), ("B9", 3), ("B10", 2), ("B11", 4), ("P6", 5)):
         chk.require_instances(r, n)
